@@ -125,6 +125,17 @@ Theorem C02_ranges_agree : forall (C : Type) (holds : C -> bool) e (arms : list 
   /\ option_map (eval_string e) (ifchain_select C holds (arms_string arms)) = option_map (fun v => render e (pieces v)) chosen.
 Proof. exact @ranges_agree. Qed.
 
+(** plurals: the view back-end and the string / display back-end both select with the key's own rule type
+    (cardinal or ordinal): for every category function (ICU's), rule type, set of written forms and `other`,
+    they take the same form - the one written for the category, else `other` - and render it alike *)
+Theorem C02_plurals_agree : forall (F R : Type) (form_eqb : F -> F -> bool) (category : R -> F) e (rule : R)
+  (forms : list (F * pv)) (other : pv),
+  let chosen := plural_select F R form_eqb category rule forms other in
+  eval_view e (plural_select F R form_eqb category rule (forms_view forms) (gen_view other)) = render e (pieces chosen)
+  /\ eval_string e (plural_select F R form_eqb category rule (forms_string forms) (gen_string other)) = render e (pieces chosen)
+  /\ eval_display e (plural_select F R form_eqb category rule (forms_string forms) (gen_display other)) = render e (pieces chosen).
+Proof. exact @plurals_agree. Qed.
+
 (** the executable predicate holds of the model for every value and environment *)
 Theorem C02_spec : forall e v,
   spec_C02 e (pieces v) [eval_string e (gen_string v); eval_display e (gen_display v)] [eval_view e (gen_view v)] = true.
